@@ -8,6 +8,7 @@ receives is the chop's total, whatever the schedule (`T_C02_count_schedule_free`
 -/
 import CBV.Lemmas.C02Term
 import CBV.Props.C01
+import CBV.Lemmas.C02Sim
 
 namespace CBV.Prop0
 
@@ -170,3 +171,119 @@ theorem T_C02_count_schedule_free (inp inp' : Inp) (st st' : St)
   unfold chopTotal; rw [hchops]
 
 end CBV.Prop
+
+
+/-! ### the same facts for the faithful wire-level model M-PROP, through the proved simulation
+    (Lemmas/C02Sim: every `copy_grading` / pass / loop of M-PROP is the corresponding step of M-PROP°) -/
+namespace CBV.Prop
+
+/-- the chopped axes, as the source set of the reachability relation -/
+def sources (inp : Inp) : Prop0.Def := (List.range (3 * inp.nBlocks)).filter (userChopped inp)
+
+/-- the propagation phase of `Mesh.grade`: `grade_blocks` then the `propagate_gradings` loop -/
+def propagation (inp : Inp) : Except Err St :=
+  loop inp (4 * inp.nBlocks + 1) (gradeBlocks inp (init inp)) (List.range inp.nBlocks)
+
+/-- `a` lies in a family that contains a chopped block direction (reachable along neighbour lists) -/
+def Fed (inp : Inp) (a : Nat) : Prop := Prop0.Reach (absInp inp) (sources inp) a
+
+theorem propagation_sim (inp : Inp) (hv : nbrsValid inp = true) :
+    match (Prop0.propagate (absInp inp) (sources inp)).2 with
+    | .ok => ∃ st', propagation inp = .ok st' ∧ R inp st' (Prop0.propagate (absInp inp) (sources inp)).1
+    | .undefined => propagation inp = .error .undefined
+    | .outOfFuel => propagation inp = .error .outOfFuel :=
+  loop_sim inp hv _ _ _ _ (fun b hb => List.mem_range.mp hb) (gradeBlocks_RJ inp).1 (gradeBlocks_RJ inp).2
+
+/-- termination: the unbounded `while` of `propagate_gradings` needs at most 4·|blocks|+1 passes, for every
+    assembly, chop placement, schedule and expansion oracle -/
+theorem T_C02_terminates_faithful (inp : Inp) (hv : nbrsValid inp = true) :
+    propagation inp ≠ .error .outOfFuel := by
+  have hs := propagation_sim inp hv
+  have ht := Prop0.T_C02_terminates (absInp inp) (sources inp)
+  cases hc : (Prop0.propagate (absInp inp) (sources inp)).2 with
+  | outOfFuel => exact absurd hc ht
+  | ok => rw [hc] at hs; obtain ⟨st', e, _⟩ := hs; rw [e]; intro h; cases h
+  | undefined => rw [hc] at hs; rw [hs]; intro h; cases h
+
+/-- completeness: if every block direction lies in a family with a chopped direction, propagation succeeds
+    and leaves every block direction defined -/
+theorem T_C02_complete_faithful (inp : Inp) (hv : nbrsValid inp = true)
+    (h : ∀ a, a < 3 * inp.nBlocks → Fed inp a) :
+    ∃ st, propagation inp = .ok st ∧ ∀ a, a < 3 * inp.nBlocks → axisDefined st a = true := by
+  have hs := propagation_sim inp hv
+  have hw := Prop0.T_C02_wellposed (absInp inp) (absInp_wf inp hv) (sources inp) (by
+    intro b hb a ha
+    exact h a (Prop0.axesOf_lt hb ha))
+  have ho := Prop0.T_C02_outcome (absInp inp) (absInp_wf inp hv) (sources inp)
+  rw [hw] at hs ho
+  obtain ⟨st', e, r⟩ := hs
+  refine ⟨st', e, ?_⟩
+  intro a ha
+  have hb : a / 3 < (absInp inp).nBlocks := by show a / 3 < inp.nBlocks; omega
+  exact (r a ha).mpr (ho (a / 3) hb a (Prop0.mem_axesOf_div a)).2
+
+/-- under-specification: if some block direction lies in a family without any chop, propagation ends with the
+    undefined-grading error — it neither loops nor succeeds -/
+theorem T_C02_undefined_faithful (inp : Inp) (hv : nbrsValid inp = true) (a : Nat) (ha : a < 3 * inp.nBlocks)
+    (hn : ¬ Fed inp a) : propagation inp = .error .undefined := by
+  have hs := propagation_sim inp hv
+  have hb : a / 3 < (absInp inp).nBlocks := by show a / 3 < inp.nBlocks; omega
+  have hu := Prop0.T_C02_underspecified (absInp inp) (absInp_wf inp hv) (sources inp) (a / 3) a hb
+    (Prop0.mem_axesOf_div a) hn
+  rw [hu] at hs
+  exact hs
+
+/-- `Mesh.grade` as a whole: never out of fuel; `undefined` exactly for under-specified inputs -/
+theorem T_C02_run (inp : Inp) :
+    run inp ≠ .error .outOfFuel ∧
+    ((coincComplete inp && nbrsValid inp) = true →
+      ((∃ a, a < 3 * inp.nBlocks ∧ ¬ Fed inp a) ↔ run inp = .error .undefined)) := by
+  have hrun : run inp = (if !(coincComplete inp && nbrsValid inp) then .error .badSchedule
+      else match propagation inp with
+        | .error e => .error e
+        | .ok st => if checkAll inp st then .ok st else .error .inconsistent) := rfl
+  constructor
+  · rw [hrun]
+    by_cases hv : (coincComplete inp && nbrsValid inp) = true
+    · simp only [hv, Bool.not_true, Bool.false_eq_true, if_false]
+      have hv' : nbrsValid inp = true := (Bool.and_eq_true _ _ ▸ hv).2
+      have := T_C02_terminates_faithful inp hv'
+      cases hp : propagation inp with
+      | error e => simp only; intro h; cases h; exact this hp
+      | ok st => simp only; split <;> (intro h; cases h)
+    · simp only [hv, Bool.not_false, if_true]; intro h; cases h
+  · intro hv
+    have hv' : nbrsValid inp = true := (Bool.and_eq_true _ _ ▸ hv).2
+    rw [hrun]
+    simp only [hv, Bool.not_true, Bool.false_eq_true, if_false]
+    constructor
+    · rintro ⟨a, ha, hn⟩
+      rw [T_C02_undefined_faithful inp hv' a ha hn]
+    · intro h
+      apply Classical.byContradiction
+      intro hne
+      have hall : ∀ a, a < 3 * inp.nBlocks → Fed inp a := by
+        intro a ha
+        apply Classical.byContradiction
+        intro hf; exact hne ⟨a, ha, hf⟩
+      obtain ⟨st, e, _⟩ := T_C02_complete_faithful inp hv' hall
+      rw [e] at h
+      simp only at h
+      split at h <;> cases h
+
+end CBV.Prop
+
+namespace CBV.Prop.Examples
+open CBV.Prop
+
+/-- non-vacuity of the faithful theorems: the two-box input has a valid, complete schedule … -/
+example : (coincComplete (twoBoxes 5 0) && nbrsValid (twoBoxes 5 0)) = true := by decide +kernel
+/-- … its un-chopped axis 4 (block 1, y) is fed by the chopped axis 1 (block 0, y) … -/
+example : Fed (twoBoxes 5 0) 4 :=
+  .step (n := 1) (by decide) (.base (by decide))
+/-- … and without the chop on block 1's x-axis that axis is in a family of its own, without any chop -/
+def twoBoxesUnder : Inp := { twoBoxes 5 0 with chops := fun x => if x = 3 then [] else (twoBoxes 5 0).chops x }
+example : (match run twoBoxesUnder with | .ok _ => none | .error e => some e) = some Err.undefined := by
+  decide +kernel
+
+end CBV.Prop.Examples
